@@ -126,8 +126,13 @@ def main() -> int:
     if a[0] == 'detect':
         detect(a[1], tier, checks)
     elif a[0] == 'detect-all':
+        # --fresh-hours H: skip changes whose recorded result is younger than H hours (they were re-run individually)
+        fresh = float(a[a.index('--fresh-hours') + 1]) * 3600 if '--fresh-hours' in a else 0
         for name in sorted(os.listdir(SEEDED)):
             if os.path.exists(os.path.join(SEEDED, name, 'meta.json')):
+                rec = os.path.join(SEEDED, name, f'detect_{tier}.json')
+                if fresh and os.path.exists(rec) and time.time() - os.path.getmtime(rec) < fresh:
+                    continue
                 detect(name, tier, checks)
     return 0
 
